@@ -130,7 +130,16 @@ def scenario(draw, tier="quick"):
                 for op_ in e_["ops"]:
                     if op_.get("pers") == "MARKET_ON_CLOSE":
                         op_["pers"] = "PERSIST"  # (would be converted to a starting-price bet at once: not a resting order)
-    return {"markets": [spec], "strategies": strategies, "clients": [{"min_bet_validation": False}], "_ri": ri,
+    removal = False
+    if ri == 0 and not inplay_only and not bsp_inplay and draw(st.integers(0, 5)) == 0:
+        # another runner is withdrawn (reduction factor >= 2.5: the matched fragments are re-priced) while the orders
+        # rest: the volume queued ahead of a resting order is still ahead of it afterwards
+        removal = True
+        spec["runners"].append({"id": 1003, "hc": 0, "af": 20.0})
+        first_place = min(e_["at"] for s_ in strategies for e_ in s_["script"]) if any(s_["script"] for s_ in strategies) else 1
+        pos = draw(st.integers(min(len(steps), first_place + 1), len(steps)))
+        steps.insert(pos, {"dt": 1000, "k": "remove", "r": draw(st.sampled_from([1, 2])), "af": draw(st.sampled_from([2.5, 10, 40]))})
+    return {"markets": [spec], "strategies": strategies, "clients": [{"min_bet_validation": False}], "_ri": ri, "_removal": removal,
             "subclassed_sim_middleware": draw(st.integers(0, 4)) == 0,
             "listener_kwargs": {"inplay": True} if inplay_only else {},
             "config": {"simulated_strategy_isolation": draw(st.integers(0, 2)) > 0, "simulation_available_prices": False}}
@@ -172,6 +181,8 @@ def check(sc):
         classes.add("subclassed-simulated-middleware")
     if sc["markets"][0].get("bsp_market"):
         classes.add("in-play-after-bsp-reconciliation")
+    if sc.get("_removal"):
+        classes.add("another-runner-withdrawn-while-orders-rest")
     if any(u.status == "SUSPENDED" and u.idx > 1 for u in ups) and not sc.get("listener_kwargs"):
         classes.add("suspension-with-resting-orders")
     orders = []
@@ -210,7 +221,7 @@ def check(sc):
                 continue
             passive = round(sum(m[2] for m in snap["matched"] if m[0] != ups[od["ack"] - 1].pt), 2)
             for m in snap["matched"]:
-                if m[0] != ups[od["ack"] - 1].pt and m[1] != od["limit"]:
+                if m[0] != ups[od["ack"] - 1].pt and m[1] != od["limit"] and not sc.get("_removal"):  # (a removal re-prices fragments)
                     raise Violation("passive-fill-price", (od["side"],), "passive fragment %s for limit %s" % (m, od["limit"]), sc)
             od["fill_at"][u] = round(passive - prev_passive, 2)
             if passive < prev_passive - 1e-9:
